@@ -104,6 +104,9 @@ def rand_valid(rnd, isuf, fsuf):
         return 2, pre + "'" + c + "'"
     n = rnd.randint(0, 12)
     body = "".join(rnd.choice(esc + plain + ["'"]) for _ in range(n))
+    while "??" in body:
+        # two pieces must not join into a trigraph: `\?` + `?!` is `\|` after translation phase 1, not the pieces drawn
+        body = body.replace("??", "?a")
     return 3, pre + '"' + body + '"'
 
 
